@@ -49,6 +49,10 @@ CLAIMS = {
                 "(prefix vs full history; -t D vs truncated history) compared with each other and with the model.",
         "note": "to-date equivalence needs local dates monotone in time (finding F9); refinement model = spec is proved separately.",
         "technique": "Coq proof + metamorphic differential correspondence", "design_ref": "6 C09"},
+    "C20": {
+        "text": "Proved on the Coq model of tax_report_jp.py (operations = template cells + insert_rows + _fill_cell; row arithmetic, columns, every fixed formula text, template geometry and the structural flags re-read from the source on each run): one sheet per (asset, local year with a visible transaction) in ascending order with distinct names; each row-bearing transaction of the year on exactly one row 21+k with its cells as final content; all writes and insertions within capacity; one summary sheet per year, line j at row 7+j pointing at that asset-year's own result cells; opening-balance cells reference the closing cells of the greatest earlier year that has a sheet, literal 0 if none; the behaviour before the fix (F5) is refuted by two vm_compute witnesses for the unrepaired flags. Corresponded: every generated tax_report_jp.ods (fresh interpreter per report, en and kl) is compared cell by cell, static cells included, with the extracted model, and judged by an independent oracle that dereferences every cross-sheet formula.",
+        "note": "That the file on disk contains these cells is only as strong as the correspondence. ezodf (copy, insert_rows, set_value), float(Decimal) and the yen float formatting are library behaviour rendered by the harness. Legend sheet and styles are not covered. Names-distinct needs years 1..9999 and distinct asset names. Yen values are amount x spot (the writer ignores supplied fiat columns). -f together with -t is excluded (F7, see C16). A dust transfer fee crashes the generator (finding F14, KNOWN_FINDINGS.txt).",
+        "technique": "Coq proof over a translated layout model + cell-by-cell differential correspondence + formula-dereferencing oracle", "design_ref": "6 C20"},
     "C05": {
         "text": "Coq theorems (C05.v) over the model regenerated from gain_loss.py and the country plugins on every run: flag = (instant difference >= period*24h), "
                 "income always short, independence from offsets, 365 for US/ES, never for JP/IE within Python's date range, configured value for generic; "
